@@ -70,10 +70,12 @@ def c03(work, tier, seed, replay):
     open(cf, "w").write("\n".join(cases) + "\n")
     vh = common.build_vh(work)
     os.environ["VH_CASES"] = cf
+    os.environ["VH_RACE_BIN"] = common.build_vh(work, race=True)   # the concurrent-use stage runs under the race detector
     try:
         tr, stats = common.vh_gen(work, vh, "c03", seed, tier, timeout=3000)
     finally:
         del os.environ["VH_CASES"]
+        del os.environ["VH_RACE_BIN"]
     cut_short = any("timeout (no result" in l for l in open(tr))     # the generator ends its run at the first call that hangs
     if not cut_short and stats["classes"].get("tlc-conversation") != len(cases):
         raise Infra("replayed %s of %d TLC conversations" % (stats["classes"].get("tlc-conversation"), len(cases)))
@@ -102,6 +104,9 @@ def c03(work, tier, seed, replay):
     return dict(violations=viol2, coverage=cov, assumptions=[
         "grammar-derived exhaustive small scope + structural mutation + specification-enumerated conversations; not coverage-guided fuzzing",
         "a step that panics or does not return within 20 s is a crash; TLC requires every recorded run to have none",
+        "concurrent use: six goroutines apply every read-only operation at the same moment, each to its own decoding of the same datagram, in a "
+        "child process built with the Go race detector; a fatal runtime error or a reported data race (unsynchronised shared state can abort "
+        "the process: 'concurrent map writes') is recorded as a crash of that stage",
         "netboot outcomes are compared with the total outcome function of spec/Netboot.tla"])
 
 
